@@ -9,7 +9,7 @@
 From Coq Require Import ZArith Bool List.
 From TV Require Import Model.Common Model.Leaf Gen.GridTracksGen Model.GridTracks.
 From TV Require Import Model.FiltersBase Gen.FiltersGen Model.ItemFilters.
-From TV Require Model.PlacementBase Model.Placement Gen.AbsPosEnums Model.AbsPosBase Gen.AbsPosGen Model.Engine.
+From TV Require Model.PlacementBase Model.Placement Gen.AbsPosEnums Model.AbsPosBase Gen.AbsPosGen Model.Engine Model.FlexAlgBase.
 Import ListNotations.
 Close Scope Z_scope.
 
@@ -19,33 +19,41 @@ Module AB := AbsPosBase.
 Module AE := AbsPosEnums.
 Module AG := AbsPosGen.
 
-(* enum RequestedAxis *)
-Inductive ReqAxis := AxHorizontal | AxVertical | AxBoth.
+(* enum RequestedAxis, LayoutInput (all seven fields), Layout: the interface types of Model/FlexAlgBase.v, so that grid, flex and block
+   containers can sit in one engine *)
+Notation ReqAxis := FlexAlgBase.ReqAxis.
+Notation AxHorizontal := FlexAlgBase.AxHorizontal.
+Notation AxVertical := FlexAlgBase.AxVertical.
+Notation AxBoth := FlexAlgBase.AxBoth.
+Notation GIn := FlexAlgBase.FIn.
+Notation mkGIn := FlexAlgBase.mkFIn.
+Notation gi_mode := FlexAlgBase.qi_mode.
+Notation gi_sizing := FlexAlgBase.qi_sizing.
+Notation gi_axis := FlexAlgBase.qi_axis.
+Notation gi_known := FlexAlgBase.qi_known.
+Notation gi_parent := FlexAlgBase.qi_parent.
+Notation gi_avail := FlexAlgBase.qi_avail.
+Notation gi_collapsible := FlexAlgBase.qi_collapsible.
+Notation GLay := FlexAlgBase.FLay.
+Notation mkGLay := FlexAlgBase.mkFLay.
+Notation gl_order := FlexAlgBase.fl_order.
+Notation gl_location := FlexAlgBase.fl_location.
+Notation gl_size := FlexAlgBase.fl_size.
+Notation gl_content_size := FlexAlgBase.fl_content_size.
+Notation gl_scrollbar_size := FlexAlgBase.fl_scrollbar_size.
+Notation gl_border := FlexAlgBase.fl_border.
+Notation gl_padding := FlexAlgBase.fl_padding.
+Notation gl_margin := FlexAlgBase.fl_margin.
+(* LayoutOutput / Layout up to content_size, Layout::with_order(i) *)
+Notation gout_eq := FlexAlgBase.fout_eq.
+Notation glay_eq := FlexAlgBase.flay_eq.
+Notation g_with_order := FlexAlgBase.f_with_order.
+Notation g_zeroish := FlexAlgBase.f_zeroish.
+
 (* enum AbstractAxis / AbsoluteAxis (as_abs_naive: Inline = Horizontal, Block = Vertical) *)
 Inductive GAxis := Inline | Block.
 Definition other_ax (a : GAxis) : GAxis := match a with Inline => Block | Block => Inline end.
 Definition req_of (a : GAxis) : ReqAxis := match a with Inline => AxHorizontal | Block => AxVertical end.
-
-(* LayoutInput, all seven fields *)
-Record GIn (T : Type) := mkGIn {
-  gi_mode : Engine.RunMode;
-  gi_sizing : SizingMode;
-  gi_axis : ReqAxis;
-  gi_known : Size (option T);
-  gi_parent : Size (option T);
-  gi_avail : Size (AvailableSpace T);
-  gi_collapsible : Line bool;              (* vertical_margins_are_collapsible *)
-}.
-Arguments mkGIn {T}. Arguments gi_mode {T}. Arguments gi_sizing {T}. Arguments gi_axis {T}. Arguments gi_known {T}.
-Arguments gi_parent {T}. Arguments gi_avail {T}. Arguments gi_collapsible {T}.
-
-(* Layout, as stored by set_unrounded_layout *)
-Record GLay (T : Type) := mkGLay {
-  gl_order : Z; gl_location : Point T; gl_size : Size T; gl_content_size : Size T; gl_scrollbar_size : Size T;
-  gl_border : Rect T; gl_padding : Rect T; gl_margin : Rect T;
-}.
-Arguments mkGLay {T}. Arguments gl_order {T}. Arguments gl_location {T}. Arguments gl_size {T}. Arguments gl_content_size {T}.
-Arguments gl_scrollbar_size {T}. Arguments gl_border {T}. Arguments gl_padding {T}. Arguments gl_margin {T}.
 
 (* Style: the fields the grid algorithm reads of the container and of its children *)
 Record GStyle (T : Type) := mkGStyle {
@@ -133,16 +141,4 @@ Section Base.
     mkGStyle (default_core DBlock Absolute) lpa_auto_rect [] [] [] [] PB.FRow (mkSize (LpLength zero) (LpLength zero)) None None None None
              row col None None false.
 
-  (* LayoutOutput up to content_size; Layout up to content_size *)
-  Definition gout_eq (a b : LayoutOutput T) : Prop :=
-    out_size a = out_size b /\ first_baselines a = first_baselines b /\ top_margin a = top_margin b /\
-    bottom_margin a = bottom_margin b /\ margins_can_collapse_through a = margins_can_collapse_through b.
-  Definition glay_eq (a b : GLay T) : Prop :=
-    gl_order a = gl_order b /\ gl_location a = gl_location b /\ gl_size a = gl_size b /\ gl_scrollbar_size a = gl_scrollbar_size b /\
-    gl_border a = gl_border b /\ gl_padding a = gl_padding b /\ gl_margin a = gl_margin b.
-  (* Layout::with_order(i) *)
-  Definition g_with_order (order : nat) : GLay T :=
-    mkGLay (Z.of_nat order) point_ZERO size_ZERO size_ZERO size_ZERO rect_ZERO rect_ZERO rect_ZERO.
-  Definition g_zeroish (l : GLay T) : Prop :=
-    exists o, l = mkGLay o point_ZERO size_ZERO size_ZERO size_ZERO rect_ZERO rect_ZERO rect_ZERO.
 End Base.
